@@ -142,6 +142,10 @@ func arConcrete(p *Prog) *arBounded {
 	// member sizes around the block sizes a read-ahead layer might use: every member has to come out
 	for _, s := range []int{384, 385, 443, 444, 445, 452, 453, 511, 512, 513, 955, 956, 1023, 1024, 1025, 4027, 4028, 4029, 4095, 4096, 4097, 8191, 8192} {
 		add(fmt.Sprintf("members of %d, 3 and 0 bytes", s), "OFFSET", buildAr(G, []arMember{good("big", s), good("small", 3), good("empty", 0)}))
+		// ... and what follows a member that ran past such a block: even- and odd-sized members in both orders, so
+		// that state kept about the padding byte of one member (skipped now or later) meets a member without one
+		add(fmt.Sprintf("members of %d, 4, 2 and 1 bytes", s), "OFFSET", buildAr(G, []arMember{good("big", s), good("even", 4), good("two", 2), good("one", 1)}))
+		add(fmt.Sprintf("members of %d, 0, 1, 6 and 3 bytes", s), "OFFSET", buildAr(G, []arMember{good("big", s), good("empty", 0), good("one", 1), good("six", 6), good("three", 3)}))
 	}
 	{
 		var many []arMember
